@@ -189,8 +189,10 @@ fn calculate_key_id(
                 "public key from bytes to string failed: {}",
                 e,
             ))
-        })?
-        .replace("\\n", "\n");
+        })
+        .and_then(|s| {
+            crate::interchange::cjson::to_olpc(&s).map_err(Error::Encoding)
+        })?;
     let mut context = digest::Context::new(&SHA256);
     context.update(public_key.as_bytes());
 
